@@ -203,6 +203,44 @@ def mixed_version_function_cases():
     return out
 
 
+def signature_and_history_cases():
+    """(a) a function with MANY inputs and outputs (12 / 11: positional binding of actuals to formals must follow the declaration order,
+    not e.g. the lexicographic order of generated names in0, in1, in10, in11, in2 ...), called at two chained sites; (b) a to_function
+    operator whose FIRST call raises (ill-typed argument inside the body / wrong number of arguments): the failed call is an error of
+    that call only - a later valid call of the same operator builds and means its body."""
+    import spox.opset.ai.onnx.v17 as op17
+    from spox._function import to_function
+
+    out = []
+    def wide_body(x0, x1, x2, x3, x4, x5, x6, x7, x8, x9, x10, x11):
+        xs = [x0, x1, x2, x3, x4, x5, x6, x7, x8, x9, x10, x11]
+        return [op17.sub(xs[i], op17.mul(xs[i + 1], op17.const(np.array(float(i + 2), np.float32)))) for i in range(11)]
+
+    wide = to_function("Wide", "verif.sig")(wide_body)
+    args = {f"x{i:02d}": B.argument(B.Tensor(np.float32, (2,))) for i in range(12)}
+    r1 = list(wide(*args.values()))
+    r2 = list(wide(*(r1 + [args["x00"]])))
+    out.append(B.Case(dict(args), {"a": r1[0], "b": r1[10], "c": r2[3], "d": r2[9]}, False, {"signature": "12-inputs-11-outputs"}))
+    for how in ("ill-typed-argument", "too-few-arguments"):
+        f = to_function("AddMul_" + how.replace("-", "_"), "verif.sig")(lambda x, y: [op17.mul(op17.add(x, y), x)])
+        a, b = B.argument(B.Tensor(np.float32, (2,))), B.argument(B.Tensor(np.float32, (2,)))
+        i64 = B.argument(B.Tensor(np.int64, (2,)))
+        problems = []
+        try:
+            _ = f(a, i64) if how == "ill-typed-argument" else f(a)
+            problems.append("setup: the ill-formed first call did not raise")
+        except Exception:  # noqa: BLE001
+            pass
+        try:
+            (r,) = list(f(a, b))
+        except Exception as e:  # noqa: BLE001
+            problems.append(f"a-valid-call-raises-after-a-failed-call: a valid call of a to_function operator raises {type(e).__name__} ({str(e)[:120]}) "
+                            f"only because an earlier call of the same operator ({how}) had raised")
+            r = a
+        out.append(B.Case({"a": a, "b": b, "i": i64}, {"r": op17.add(r, b)}, False, {"after_failed_call": how, "intent_problems": problems}))
+    return out
+
+
 def run(run: Run) -> int:
     run.check_theorems(PROPS, CONE, thorough_coqchk=(run.tier == "thorough"))
     n = 200 if run.tier == "quick" else 2500
@@ -217,6 +255,7 @@ def run(run: Run) -> int:
         if c.meta.get("mixed_versions"):
             c.coq = None
         cases.append(c)
+    cases += signature_and_history_cases()
     mism = B.correspondence(run, "c14", cases)
     nprng = np.random.RandomState(run.seed)
     hist = collections.Counter()
